@@ -646,7 +646,7 @@ func damagePlan(cx *CheckCtx) int {
 	scs := loadScenarios("C19")
 	nRandom := 2
 	if thorough {
-		nRandom = 12
+		nRandom = 5
 	}
 	const parts = 5 // the mutations of one repository are spread over this many jobs
 	addPart := func(name string, evs func(goit string, rng *rand.Rand) ([]M, map[string][]byte, int), part int, seed int64) {
